@@ -627,6 +627,10 @@ class BPSK(Modulator):
         # noinspection PyTypeChecker
         if np.any(inputData > 1):
             raise ValueError("Input data can only contains '0's and '1's")
+        if getattr(inputData, 'dtype', np.dtype(int)).kind == 'u':
+            # "1 - 2 * bits" would wrap around in unsigned arithmetic (such
+            # as for the uint8 bits returned by np.unpackbits)
+            inputData = inputData.astype(int)
         return 1 - 2 * inputData
 
     def demodulate(self, receivedData: np.ndarray) -> np.ndarray:
